@@ -6,7 +6,7 @@ CONSTANTS
   MaxActions = 100000
   ActionKinds = {"complete"}
   ErrCodes = {"e1", "e2"}
-  Deviations = {"F2"}
-  SharedCatchPrev = TRUE
+  Deviations = {}
+  SharedCatchPrev = FALSE
 POSTCONDITION TraceAccepted
 CHECK_DEADLOCK FALSE
